@@ -490,6 +490,9 @@ class IntervalTier(textgrid_tier.TextgridTier):
         else:
             interval = entry
 
+        # As in the constructor, labels carry no surrounding whitespace
+        interval = Interval(interval.start, interval.end, interval.label.strip())
+
         matchList = self.crop(
             interval.start, interval.end, CropCollision.LAX, False
         )._entries
